@@ -24,123 +24,11 @@ def N(id, prop, module, qual, old, new):
     NEUTRAL.append({"id": id, "prop": prop, "edits": [(module, qual, old, new)]})
 
 
-# ============================================================================ C09 Lock
-M("c09-barging", "C09", A, "Lock.acquire",
-  "if self._owner_task is None and not self._waiters:", "if self._owner_task is None:", ["R09-a"])
-M("c09-nowait-barging", "C09", A, "Lock.acquire_nowait",
-  "if self._owner_task is None and not self._waiters:", "if self._owner_task is None:", ["R09-a"])
-M("c09-real-checkpoint-between-test-and-take", "C09", A, "Lock.acquire",
-  "await AsyncIOBackend.checkpoint_if_cancelled()\n            self._owner_task = task",
-  "await AsyncIOBackend.checkpoint()\n            self._owner_task = task", ["R09-a"])
-M("c09-handoff-to-cancelled", "C09", A, "Lock.release",
-  "            if fut.cancelled():\n                continue\n\n", "", ["R09-b"])
-M("c09-lifo", "C09", A, "Lock.release", "self._waiters.popleft()", "self._waiters.pop()", ["R09-c"])
-M("c09-put-front", "C09", A, "Lock.acquire", "self._waiters.append(item)", "self._waiters.appendleft(item)", ["R09-c"])
-M("c09-no-wake", "C09", A, "Lock.release", "            fut.set_result(None)\n            return", "            return", ["R09-b"])
-M("c09-no-owner-transfer", "C09", A, "Lock.release",
-  "            self._owner_task = task\n            fut.set_result(None)", "            fut.set_result(None)", ["R09-b"])
-M("c09-free-with-waiters", "C09", A, "Lock.release",
-  "            fut.set_result(None)\n            return", "            fut.set_result(None)\n            break", ["R09-b"])
-M("c09-no-owner-check", "C09", A, "Lock.release",
-  "        if self._owner_task != current_task():\n            raise RuntimeError(\"The current task is not holding this lock\")\n", "", ["R09-b"])
-M("c09-cancelled-waiter-keeps-lock", "C09", A, "Lock.acquire",
-  "            else:\n                self.release()\n\n            raise", "            raise", ["R09-d"])
-M("c09-cancelled-waiter-stays-queued", "C09", A, "Lock.acquire",
-  "                try:\n                    self._waiters.remove(item)\n                except ValueError:\n                    pass",
-  "                pass", ["R09-d"])
-M("c09-swallow-cancel", "C09", A, "Lock.acquire",
-  "            else:\n                self.release()\n\n            raise", "            else:\n                self.release()\n                raise", ["R09-d"])
-M("c09-fastpath-no-undo", "C09", A, "Lock.acquire",
-  "                except CancelledError:\n                    self.release()\n                    raise\n\n            return",
-  "                except CancelledError:\n                    raise\n\n            return", ["R09-d"])
-M("c09-fastpath-no-yield", "C09", A, "Lock.acquire",
-  "            if not self._fast_acquire:\n                try:\n                    await AsyncIOBackend.cancel_shielded_checkpoint()\n                except CancelledError:\n                    self.release()\n                    raise\n\n            return",
-  "            return", ["R09-d"])
-M("c09-take-before-cancel-check", "C09", A, "Lock.acquire",
-  "            await AsyncIOBackend.checkpoint_if_cancelled()\n            self._owner_task = task",
-  "            self._owner_task = task\n            await AsyncIOBackend.checkpoint_if_cancelled()", ["R09-d"])
-M("c09-reacquire-queues", "C09", A, "Lock.acquire",
-  "        if self._owner_task == task:\n            raise RuntimeError(\"Attempted to acquire an already held Lock\")\n", "", ["R09-e"])
-M("c09-nowait-no-wouldblock", "C09", A, "Lock.acquire_nowait", "        raise WouldBlock", "        return None", ["R09-e"])
-M("c09-wrong-undo-order", "C09", A, "Lock.acquire",
-  "            if fut.cancelled():\n                try:", "            if not fut.cancelled():\n                try:", ["R09-d"])
 
-N("c09-n-flip-cmp", "C09", A, "Lock.release", "if self._owner_task != current_task():", "if current_task() != self._owner_task:")
-N("c09-n-not-eq", "C09", A, "Lock.release", "if self._owner_task != current_task():", "if not (self._owner_task == current_task()):")
-N("c09-n-swap-conj", "C09", A, "Lock.acquire",
-  "if self._owner_task is None and not self._waiters:", "if not self._waiters and self._owner_task is None:")
-N("c09-n-nested-if", "C09", A, "Lock.acquire_nowait",
-  "        if self._owner_task is None and not self._waiters:\n            self._owner_task = task\n            return",
-  "        if self._owner_task is None:\n            if not self._waiters:\n                self._owner_task = task\n                return")
-N("c09-n-alias", "C09", A, "Lock.release",
-  "        while self._waiters:\n            task, fut = self._waiters.popleft()",
-  "        waiters = self._waiters\n        while waiters:\n            task, fut = waiters.popleft()")
-N("c09-n-else-form", "C09", A, "Lock.release",
-  "            if fut.cancelled():\n                continue\n\n            self._owner_task = task\n            fut.set_result(None)\n            return",
-  "            if not fut.cancelled():\n                self._owner_task = task\n                fut.set_result(None)\n                return")
 
-# ============================================================================ C10 Semaphore / CapacityLimiter
-M("c10-F1-revert-delta-grant", "C10", A, "CapacityLimiter.total_tokens@setter",
-  "        self._total_tokens = value\n\n        # Notify waiting tasks that they have acquired the limiter\n        while self._wait_queue and len(self._borrowers) < self._total_tokens:\n            borrower, event = self._wait_queue.popitem(last=False)\n            self._borrowers.add(borrower)\n            event.set()\n",
-  "        waiters_to_notify = max(value - self._total_tokens, 0)\n        self._total_tokens = value\n\n        # Notify waiting tasks that they have acquired the limiter\n        while self._wait_queue and waiters_to_notify:\n            borrower, event = self._wait_queue.popitem(last=False)\n            self._borrowers.add(borrower)\n            event.set()\n            waiters_to_notify -= 1\n",
-  ["R10-a"])
-M("c10-F6-revert-wrong-undo", "C10", A, "CapacityLimiter.acquire_on_behalf_of",
-  "self.release_on_behalf_of(borrower)", "self.release()", ["R10-e"])
-M("c10-notify-without-capacity", "C10", A, "CapacityLimiter._notify_next_waiter",
-  "if self._wait_queue and len(self._borrowers) < self._total_tokens:", "if self._wait_queue:", ["R10-a"])
-M("c10-nowait-barging", "C10", A, "CapacityLimiter.acquire_on_behalf_of_nowait",
-  "if self._wait_queue or len(self._borrowers) >= self._total_tokens:", "if len(self._borrowers) >= self._total_tokens:", ["R10-a"])
-M("c10-nowait-off-by-one", "C10", A, "CapacityLimiter.acquire_on_behalf_of_nowait",
-  "len(self._borrowers) >= self._total_tokens:", "len(self._borrowers) > self._total_tokens:", ["R10-a"])
-M("c10-double-borrow", "C10", A, "CapacityLimiter.acquire_on_behalf_of_nowait",
-  "        if borrower in self._borrowers:\n            raise RuntimeError(\n                \"this borrower is already holding one of this CapacityLimiter's tokens\"\n            )\n", "", ["R10-a"])
-M("c10-limiter-lifo", "C10", A, "CapacityLimiter._notify_next_waiter", "popitem(last=False)", "popitem()", ["R10-c", "R10-a"])
-M("c10-sem-lifo", "C10", A, "Semaphore.release", "self._waiters.popleft()", "self._waiters.pop()", ["R10-c", "R10-b"])
-M("c10-cancelled-waiter-keeps-token", "C10", A, "CapacityLimiter.acquire_on_behalf_of",
-  "                if event.is_set():\n                    self._borrowers.discard(borrower)\n                    self._notify_next_waiter()\n", "", ["R10-d"])
-M("c10-cancelled-waiter-no-pass-on", "C10", A, "CapacityLimiter.acquire_on_behalf_of",
-  "                    self._borrowers.discard(borrower)\n                    self._notify_next_waiter()\n", "                    self._borrowers.discard(borrower)\n", ["R10-d"])
-M("c10-cancelled-waiter-stays-queued", "C10", A, "CapacityLimiter.acquire_on_behalf_of",
-  "                self._wait_queue.pop(borrower, None)\n", "", ["R10-d"])
-M("c10-waiter-swallows-cancel", "C10", A, "CapacityLimiter.acquire_on_behalf_of",
-  "                    self._notify_next_waiter()\n\n                raise", "                    self._notify_next_waiter()\n", ["R10-d"])
-M("c10-limiter-no-cancel-check", "C10", A, "CapacityLimiter.acquire_on_behalf_of",
-  "        await AsyncIOBackend.checkpoint_if_cancelled()\n", "", ["R10-d"])
-M("c10-limiter-no-yield", "C10", A, "CapacityLimiter.acquire_on_behalf_of",
-  "            try:\n                await AsyncIOBackend.cancel_shielded_checkpoint()\n            except BaseException:\n                self.release_on_behalf_of(borrower)\n                raise",
-  "            pass", ["R10-d"])
-M("c10-release-no-notify", "C10", A, "CapacityLimiter.release_on_behalf_of", "        self._notify_next_waiter()\n", "", ["R10-f"])
-M("c10-release-nonborrower-silent", "C10", A, "CapacityLimiter.release_on_behalf_of",
-  "            self._borrowers.remove(borrower)\n        except KeyError:\n            raise RuntimeError(\n                \"this borrower isn't holding any of this CapacityLimiter's tokens\"\n            ) from None",
-  "            self._borrowers.remove(borrower)\n        except KeyError:\n            return", ["R10-f"])
-M("c10-aexit-conditional-release", "C10", A, "CapacityLimiter.__aexit__", "        self.release()", "        if exc_val is None:\n            self.release()", ["R10-f"])
-M("c10-available-wrong", "C10", A, "CapacityLimiter.available_tokens", "self._total_tokens - len(self._borrowers)", "self._total_tokens - len(self._borrowers) - len(self._wait_queue)", ["R10-g"])
-M("c10-foreign-writer", "C10", A, "CapacityLimiter.statistics", "        return CapacityLimiterStatistics(", "        self._borrowers.discard(None)\n        return CapacityLimiterStatistics(", ["R10-g"])
-M("c10-negative-total", "C10", A, "CapacityLimiter.total_tokens@setter",
-  "        if value < 0:\n            raise ValueError(\"total_tokens must be >= 0\")\n", "", ["R10-g"])
-M("c10-sem-barging", "C10", A, "Semaphore.acquire", "if self._value > 0 and not self._waiters:", "if self._value > 0:", ["R10-b"])
-M("c10-sem-negative", "C10", A, "Semaphore.acquire_nowait", "        if self._value == 0:\n            raise WouldBlock\n\n", "", ["R10-b"])
-M("c10-sem-release-double", "C10", A, "Semaphore.release",
-  "            fut.set_result(None)\n            return", "            fut.set_result(None)\n            break", ["R10-b"])
-M("c10-sem-release-to-cancelled", "C10", A, "Semaphore.release", "            if fut.cancelled():\n                continue\n\n", "", ["R10-b"])
-M("c10-sem-max-ignored", "C10", A, "Semaphore.release",
-  "        if self._max_value is not None and self._value == self._max_value:\n            raise ValueError(\"semaphore released too many times\")\n", "", ["R10-b"])
-M("c10-sem-max-after", "C10", A, "Semaphore.release",
-  "        self._value += 1", "        self._value += 1\n        if self._max_value is not None and self._value > self._max_value:\n            raise ValueError(\"semaphore released too many times\")", ["R10-b"])
-M("c10-sem-cancelled-waiter-keeps-permit", "C10", A, "Semaphore.acquire",
-  "            else:\n                self.release()\n\n            raise", "            raise", ["R10-d"])
-M("c10-sem-fast-no-undo", "C10", A, "Semaphore.acquire",
-  "                except CancelledError:\n                    self.release()\n                    raise\n\n            return", "                except CancelledError:\n                    raise\n\n            return", ["R10-d"])
-M("c10-sem-real-checkpoint", "C10", A, "Semaphore.acquire",
-  "await AsyncIOBackend.checkpoint_if_cancelled()\n            self._value -= 1", "await AsyncIOBackend.checkpoint()\n            self._value -= 1", ["R10-b"])
-M("c10-limiter-register-under-wrong-key", "C10", A, "CapacityLimiter.acquire_on_behalf_of",
-  "self._wait_queue[borrower] = event", "self._wait_queue[current_task()] = event", ["R10-d"])
-
-N("c10-n-ge-to-not-lt", "C10", A, "CapacityLimiter.acquire_on_behalf_of_nowait",
-  "if self._wait_queue or len(self._borrowers) >= self._total_tokens:", "if self._wait_queue or not (len(self._borrowers) < self._total_tokens):")
-N("c10-n-flip", "C10", A, "CapacityLimiter._notify_next_waiter",
-  "len(self._borrowers) < self._total_tokens", "self._total_tokens > len(self._borrowers)")
-N("c10-n-sem-flip", "C10", A, "Semaphore.acquire", "if self._value > 0 and not self._waiters:", "if not self._waiters and 0 < self._value:")
-N("c10-n-setter-helper-loop", "C10", A, "CapacityLimiter.total_tokens@setter",
-  "        while self._wait_queue and len(self._borrowers) < self._total_tokens:\n            borrower, event = self._wait_queue.popitem(last=False)\n            self._borrowers.add(borrower)\n            event.set()\n",
-  "        while True:\n            if not self._wait_queue:\n                break\n            if len(self._borrowers) >= self._total_tokens:\n                break\n            borrower, event = self._wait_queue.popitem(last=False)\n            self._borrowers.add(borrower)\n            event.set()\n")
+def load_all():
+    import importlib, os, pkgutil
+    here = os.path.dirname(os.path.abspath(__file__))
+    for fn in sorted(os.listdir(here)):
+        if fn.startswith("m_c") and fn.endswith(".py"):
+            importlib.import_module("sa.selftest." + fn[:-3])
